@@ -45,6 +45,8 @@ structure EnvOk (e : Env) : Prop where
   base : BLOCK_HEADER_OVERHEAD * WITNESS_SCALE + e.cbWeight < e.maxWeight
   maxU32 : e.maxWeight < U32
   cbSig : e.cbSigCost ≤ MAX_BLOCK_SIGOPS_COST
+  /-- the node's clock is at most two hours behind the median time -/
+  clock : e.mtp + 1 ≤ e.now + MAX_TIME_OFFSET
 
 /-- Decidable form of "the source reports the real fee": the fee of every transaction whose inputs
 all exist (on the chain or as outputs of pool transactions) is inputs − outputs. -/
@@ -241,10 +243,16 @@ theorem checkInputsAux_live (v : View) (h m : Int) : ∀ (ins : List Inp) (acc t
         by_cases hmat : (en.coinbase && decide (h - en.height < m)) = true
         · simp [hmat] at hc
         · simp only [hmat] at hc
-          rcases List.mem_cons.1 hi with h1 | h1
-          · subst h1
-            exact ⟨en, hg, by simpa using hs⟩
-          · exact ih _ _ hc i h1
+          by_cases hr1 : en.value > MAX_SATOSHI
+          · simp [hr1] at hc
+          · simp only [hr1, if_false] at hc
+            by_cases hr2 : acc + en.value > MAX_SATOSHI
+            · simp [hr2] at hc
+            · simp only [hr2, if_false] at hc
+              rcases List.mem_cons.1 hi with h1 | h1
+              · subst h1
+                exact ⟨en, hg, by simpa using hs⟩
+              · exact ih _ _ hc i h1
 
 theorem inputValue_of_live {e : Env} {pool : List Tx} {sel : List Nat} {v : View}
     (hv : ViewOk e pool sel v) {op : OutPoint} {en : Entry} (hl : v.live op en)
@@ -288,7 +296,13 @@ theorem checkInputsAux_inputsValue {e : Env} {pool : List Tx} {sel : List Nat} {
         by_cases hmat : (en.coinbase && decide (e.nextHeight - en.height < e.maturity)) = true
         · simp [hmat] at hc
         · simp only [hmat] at hc
-          rcases ih _ _ hc with ⟨x, hx, htot⟩
+          have hc2 : checkInputsAux v e.nextHeight e.maturity rest (acc + en.value) = some tot := by
+            by_cases hr1 : en.value > MAX_SATOSHI
+            · simp [hr1] at hc
+            · by_cases hr2 : acc + en.value > MAX_SATOSHI
+              · simp [hr1, hr2] at hc
+              · simpa [hr1, hr2] using hc
+          rcases ih _ _ hc2 with ⟨x, hx, htot⟩
           have hl : v.live a.op en := ⟨hg, by simpa using hs⟩
           have hm : ¬ (en.coinbase = true ∧ e.nextHeight - en.height < e.maturity) := by
             intro hh
@@ -297,6 +311,32 @@ theorem checkInputsAux_inputsValue {e : Env} {pool : List Tx} {sel : List Nat} {
           have hiv := inputValue_of_live hv hl hm
           refine ⟨en.value + x, ?_, by omega⟩
           simp [inputsValue, hiv, hx]
+
+theorem checkInputsAux_le_max (v : View) (h m : Int) : ∀ (ins : List Inp) (acc tot : Nat),
+    checkInputsAux v h m ins acc = some tot → acc ≤ MAX_SATOSHI → tot ≤ MAX_SATOSHI := by
+  intro ins
+  induction ins with
+  | nil => intro acc tot hc ha; simp [checkInputsAux] at hc; omega
+  | cons a rest ih =>
+    intro acc tot hc ha
+    unfold checkInputsAux at hc
+    cases hg : v.get a.op with
+    | none => simp [hg] at hc
+    | some en =>
+      simp only [hg] at hc
+      by_cases hs : en.spent = true
+      · simp [hs] at hc
+      · simp only [hs] at hc
+        by_cases hmat : (en.coinbase && decide (h - en.height < m)) = true
+        · simp [hmat] at hc
+        · simp only [hmat] at hc
+          by_cases hr1 : en.value > MAX_SATOSHI
+          · simp [hr1] at hc
+          · simp only [hr1, if_false] at hc
+            by_cases hr2 : acc + en.value > MAX_SATOSHI
+            · simp [hr2] at hc
+            · simp only [hr2, if_false] at hc
+              exact ih _ _ hc (by omega)
 
 /-- a blocked transaction never passes `CheckTransactionInputs` -/
 theorem blocked_not_live {e : Env} {pool : List Tx} (hp : PoolOk pool) {sel : List Nat} {v : View}
